@@ -125,4 +125,20 @@ example : checksalt Gen.table (some [97, 98]) = .legacy := by decide
 example : checksalt Gen.table (some [36, 54, 36, 58]) = .invalid := by decide
 example : checksalt Gen.table (some [36, 122, 36]) = .invalid := by decide
 
+
+/-! ### what the authentication round trip (C01) needs from a dispatch table -/
+
+/-- the tag `hashes.conf` gives a method -/
+def tagOf (m : Method) : Bytes := ((Gen.hashesConf.find? (·.name == m)).map (·.pfx)).getD []
+
+/-- what the round trip needs from a dispatch table: first match = unique match, tags begin with a character outside the
+    DES salt alphabet, and every row carries the tag `hashes.conf` gives its method -/
+def TableOk (tbl : List HashEntry) : Bool :=
+  prefixFree tbl &&
+  tbl.all (fun r => r.pfx.isEmpty || !isDesSaltChar (cat r.pfx 0)) &&
+  tbl.all (fun r => r.pfx == tagOf r.crypt)
+
+theorem tableOk_tree : TableOk Gen.table = true := by decide
+
+
 end Xc.C18
